@@ -725,7 +725,7 @@ impl Prop for Directed {
         "C12/directed".into()
     }
     fn rule(&self) -> String {
-        "grammar-directed hostile inputs: (a) accepted programs from the rich generator with 1-3 poisonings: a boundary integer (isize::MIN, -1, 0, 1, 2^31±1, 2^32, 2^63-1, values near usize::MAX/k) in a numeric position (field address, type size/align/singleton, vftable size, vfunc index, array length, unknown<N>, pointer and array nesting 100-700 levels deep, enum value, extern-type size/align, function and extern-value address; positive table sizes/indices capped at 65536), an unusual identifier (`_`, raw, unicode, names of generated items) in a name position, #[base] on arbitrary fields, by-value recursion, cyclic/self/empty `use`, odd module file names; name-clash perturbations (one program in three), a derived vftable block that disagrees with its base's table (one in three), doc comments with edge content (empty, multi-byte, quotes, braces, long; one in three), all base fields named alike and functions sharing one name (one in five); small hierarchies whose function and base-field names are drawn from {f, g, base_f, b_f, ...} x {base, b} so that the renaming of re-exposed functions meets taken names at every step (one case in eight); (b) syntactically valid random modules over the full grammar (gast) as one or two modules. Every case runs in a worker process under RLIMIT_AS 2 GiB / RLIMIT_CPU 20 s through parse_str, add_module+build+write_module and pyxis::build on disk. Oracle: every call returns; no panic (incl. arithmetic overflow: overflow checks on), abort, segfault or limit hit; both entry points agree on Ok/Err. Non-trivial: >=1 file parses".into()
+        "grammar-directed hostile inputs: (a) accepted programs from the rich generator (1-6 items; one in ten with 20-60 items in one or two modules) with 1-3 poisonings: a boundary integer (isize::MIN, -1, 0, 1, 2^31±1, 2^32, 2^63-1, values near usize::MAX/k) in a numeric position (field address, type size/align/singleton, vftable size, vfunc index, array length, unknown<N>, pointer and array nesting 100-700 levels deep, enum value, extern-type size/align, function and extern-value address; positive table sizes/indices capped at 65536), an unusual identifier (`_`, raw, unicode, names of generated items) in a name position, #[base] on arbitrary fields, by-value recursion, cyclic/self/empty `use`, odd module file names; name-clash perturbations (one program in three), a derived vftable block that disagrees with its base's table (one in three), doc comments with edge content (empty, multi-byte, quotes, braces, long; one in three), all base fields named alike and functions sharing one name (one in five); small hierarchies whose function and base-field names are drawn from {f, g, base_f, b_f, ...} x {base, b} so that the renaming of re-exposed functions meets taken names at every step (one case in eight); (b) syntactically valid random modules over the full grammar (gast) as one or two modules. Every case runs in a worker process under RLIMIT_AS 2 GiB / RLIMIT_CPU 20 s through parse_str, add_module+build+write_module and pyxis::build on disk. Oracle: every call returns; no panic (incl. arithmetic overflow: overflow checks on), abort, segfault or limit hit; both entry points agree on Ok/Err. Non-trivial: >=1 file parses".into()
     }
     fn gen(&self, t: &mut Tape) -> Case {
         let w = if t.chance(1, 2) { 8 } else { 4 };
@@ -758,6 +758,14 @@ impl Prop for Directed {
         cfg.clashes = 3;
         cfg.vft_num = 2;
         cfg.base_num = 2;
+        // one program in ten is large and flat: dozens of definitions in one or two modules (sorting,
+        // grouping and lookup code sees more than a handful of entries)
+        if t.chance(1, 10) {
+            cfg.max_items = 20 + t.below(40);
+            cfg.max_mods = 1 + t.below(2);
+            cfg.max_fields = 3;
+            cfg.clashes = 0;
+        }
         let (mut prog, _, _) = gen_prog(t, cfg);
         let n = 1 + t.below(3);
         let mut whats = vec![];
